@@ -33,6 +33,12 @@ def run(ctx, rep):
     if r is None:
         return
     parent, cls = r
+    # the three input stacks are selected by the KIND of the frame result: the start wrapper of a kind
+    # pushes on that kind's stack and the end is popped from the stack of the result's kind, so a
+    # frame constructor answering in another kind unbalances them (shared rule with C01 R2)
+    import c01
+    import engine
+    c01.check_frame_kinds(fx, engine.SubReport(rep, 'C01'))
     roles = {}
     for c in cls:
         roles.setdefault(c.role, []).append(c)
